@@ -471,6 +471,8 @@ pub fn cmd_fuzz(a: &Args) {
 
 	// base files: concretised behaviours + the repository's fixtures
 	let bases: std::sync::Mutex<Vec<(String, Vec<u8>)>> = std::sync::Mutex::new(vec![]);
+	// structure-aware mutants of the generated files (the offsets of their events are known): extreme frame ids
+	let structured: std::sync::Mutex<Vec<(String, String, Vec<u8>)>> = std::sync::Mutex::new(vec![]);
 	if let Some(inp) = a.get("in") {
 		crate::for_each_tagged(inp, "BEH", threads, a.num("stride", 1) as usize, a.num("max", u64::MAX) as usize, |idx, v| {
 			let beh: Beh = serde_json::from_value(v).expect("BEH json");
@@ -478,6 +480,24 @@ pub fn cmd_fuzz(a: &Args) {
 				let mut o = GenOpts::new(seed ^ ((idx as u64) << 16), ver);
 				o.plan = 1;
 				let built = gen::build_beh(&db, &beh, &o);
+				if idx % 5 == 0 {
+					// the frame id of one event replaced by an extreme value (every event of the first dozen, then strided)
+					let evs = gen::file_events(&beh);
+					let mut st = structured.lock().unwrap();
+					for (k, e) in evs.iter().enumerate() {
+						if !["fs", "pre", "post", "item", "fe"].contains(&e.k.as_str()) || (k >= 12 && k % 7 != 0) || k >= built.ev_offs.len() {
+							continue;
+						}
+						for v in [i32::MAX, i32::MIN, i32::MAX - 1, i32::MIN + 1, -124, -125, i32::MIN + 123, i32::MAX - 123, 0] {
+							let mut b = built.bytes.clone();
+							let off = built.ev_offs[k] + 1;
+							if off + 4 <= b.len() {
+								b[off..off + 4].copy_from_slice(&v.to_be_bytes());
+								st.push((format!("regime:{}", beh.reg), format!("frame_id[{}#{}]={}", e.k, k, v), b));
+							}
+						}
+					}
+				}
 				bases.lock().unwrap().push((format!("regime:{}", beh.reg), built.bytes));
 			}
 		});
@@ -496,6 +516,7 @@ pub fn cmd_fuzz(a: &Args) {
 		}
 	}
 	let bases = bases.into_inner().unwrap();
+	let structured = structured.into_inner().unwrap();
 	// a hung read leaves a spinning thread behind: after a few hangs (already reported) stop exploring
 	let hangs = std::sync::atomic::AtomicUsize::new(0);
 	let nfill = std::sync::atomic::AtomicUsize::new(0);
@@ -551,9 +572,35 @@ pub fn cmd_fuzz(a: &Args) {
 			});
 		}
 	});
+	// the structure-aware mutants (every 4th again with the logger)
+	let next2 = std::sync::atomic::AtomicUsize::new(0);
+	std::thread::scope(|s| {
+		for _ in 0..threads.max(1) {
+			s.spawn(|| {
+				let mut dog = Watchdog::new();
+				loop {
+					let i = next2.fetch_add(1, std::sync::atomic::Ordering::SeqCst);
+					if i >= structured.len() || crate::streamchk::too_many_hangs() {
+						return;
+					}
+					if logging && i % ls != 0 {
+						continue;
+					}
+					let (name, what, m) = &structured[i];
+					sink.count(fnv(m), true);
+					let m = std::sync::Arc::new(m.clone());
+					if let Some((kind, detail)) = all_reads(m.clone(), &mut dog, deadline) {
+						let cls = format!("{},mutation:frame_id,{}", name.split(':').next().unwrap(), if kind == "panic" { panic_site(&detail) } else { String::new() });
+						let v = viol("file_adversary", &cls, &kind, format!("{} on {}: {}", what, name, detail));
+						sink.report(&v, &|| json!({"mutation": what, "base": name, "bytes_hex": crate::util::hex(&m[..m.len().min(1 << 20)])}));
+					}
+				}
+			});
+		}
+	});
 	}
 	crate::set_logging(false);
-	sink.summary(json!({"base_files": bases.len(), "string_field_fills": nfill.load(std::sync::atomic::Ordering::Relaxed)}));
+	sink.summary(json!({"base_files": bases.len(), "string_field_fills": nfill.load(std::sync::atomic::Ordering::Relaxed), "frame_id_mutants": structured.len()}));
 }
 
 /// Grammar-aware corruption of the metadata element: every byte of it replaced by every value, and every position
